@@ -110,7 +110,8 @@ class ScalarFormatter(object):
         self._n_significant_digits = n_significant_digits
         _sig = int(-np.floor(np.log10(self._sigma))) + self._n_significant_digits - 1
         # inner rounding needed for errors like 0.9999999 -> 1.0 (shift in decimal place)
-        self._sig = int(-np.floor(np.log10(np.around(self._sigma, _sig)))) + self._n_significant_digits - 1
+        _sigma_as_displayed = float("%.*g" % (self._n_significant_digits, self._sigma))
+        self._sig = int(-np.floor(np.log10(_sigma_as_displayed))) + self._n_significant_digits - 1
 
     def __call__(self, x):
         """Format the input to the precision given by the uncertainty.
